@@ -99,6 +99,8 @@ type Cluster struct {
 	T          *tracer.Tracer
 	DSEVersion string
 	MaxVersion primitive.ProtocolVersion // 0 = accept everything the library knows
+	// PeersDelay delays every answer to a read of system.peers (set and read atomically).
+	PeersDelay time.Duration
 	// Handshake, when set, sees every decoded frame before the default handling (backend personalities during the
 	// connection handshake: version refusals, authentication exchanges, REGISTER answers); true = it has answered.
 	Handshake func(cn *Conn, a *Attempt) bool
@@ -652,6 +654,19 @@ func (cn *Conn) handleQuery(a *Attempt, m *message.Query) {
 	case a.Token == "" && strings.HasPrefix(lq, "select * from system.local"):
 		cn.send(&a.Header, c.localRows(cn.N, a.Header.Version), 0, nil)
 	case a.Token == "" && strings.HasPrefix(lq, "select * from system.peers"):
+		if d := time.Duration(atomic.LoadInt64((*int64)(&c.PeersDelay))); d > 0 {
+			// a topology query that takes a while (a busy coordinator, a distant one)
+			h := a.Header
+			ver := a.Header.Version
+			go func() {
+				select {
+				case <-time.After(d):
+					cn.send(&h, c.peersRows(cn.N, ver), 0, nil)
+				case <-cn.closed:
+				}
+			}()
+			return
+		}
 		cn.send(&a.Header, c.peersRows(cn.N, a.Header.Version), 0, nil)
 	case useRe.MatchString(q):
 		ks := FoldKeyspace(useRe.FindStringSubmatch(q)[1])
